@@ -401,6 +401,7 @@ Definition flow_step (c : N -> Z) (fl : flow) (o : fop) : flow * list fframe * f
 Definition cof (key : N) (i : N) : Z := content (i + 7919 * (key + 1)).
 
 Record sys := mksys {
+  sy_rot : bool;                      (* variant: the repaired cursor order (finding F60), see [load_order] *)
   sy_w : N;
   sy_dirs : list N;                   (* stream j: 0 bidirectional / 1 unidirectional *)
   sy_flows : list (N * flow);         (* key 2j + side -> flow; ascending keys *)
@@ -436,8 +437,8 @@ Fixpoint init_flows (w : N) (dirs : list N) (j : N) : list (N * flow) :=
     (2 * j, new_flow w) :: (if d =? 0 then [(2 * j + 1, new_flow w)] else []) ++ init_flows w t (j + 1)
   end.
 
-Definition sys_init (w : N) (dirs : list N) : sys :=
-  mksys w dirs (init_flows w dirs 0) None None 0 0 [] false.
+Definition sys_init (rot : bool) (w : N) (dirs : list N) : sys :=
+  mksys rot w dirs (init_flows w dirs 0) None None 0 0 [] false.
 
 Definition key_side (k : N) : N := k mod 2.
 Definition key_stream (k : N) : N := k / 2.
@@ -462,15 +463,15 @@ Definition has_reader (s : sys) (side j : N) : bool :=
   end.
 
 Definition set_flows (s : sys) (f : list (N * flow)) : sys :=
-  mksys (sy_w s) (sy_dirs s) f (sy_cur0 s) (sy_cur1 s) (sy_kbi s) (sy_kuni s) (sy_pool s) (sy_closed s).
+  mksys (sy_rot s) (sy_w s) (sy_dirs s) f (sy_cur0 s) (sy_cur1 s) (sy_kbi s) (sy_kuni s) (sy_pool s) (sy_closed s).
 Definition set_pool (s : sys) (p : list (N * fframe)) : sys :=
-  mksys (sy_w s) (sy_dirs s) (sy_flows s) (sy_cur0 s) (sy_cur1 s) (sy_kbi s) (sy_kuni s) p (sy_closed s).
+  mksys (sy_rot s) (sy_w s) (sy_dirs s) (sy_flows s) (sy_cur0 s) (sy_cur1 s) (sy_kbi s) (sy_kuni s) p (sy_closed s).
 Definition set_cursor (s : sys) (side : N) (c : option (N * N)) : sys :=
   if side =? 0
-  then mksys (sy_w s) (sy_dirs s) (sy_flows s) c (sy_cur1 s) (sy_kbi s) (sy_kuni s) (sy_pool s) (sy_closed s)
-  else mksys (sy_w s) (sy_dirs s) (sy_flows s) (sy_cur0 s) c (sy_kbi s) (sy_kuni s) (sy_pool s) (sy_closed s).
+  then mksys (sy_rot s) (sy_w s) (sy_dirs s) (sy_flows s) c (sy_cur1 s) (sy_kbi s) (sy_kuni s) (sy_pool s) (sy_closed s)
+  else mksys (sy_rot s) (sy_w s) (sy_dirs s) (sy_flows s) (sy_cur0 s) c (sy_kbi s) (sy_kuni s) (sy_pool s) (sy_closed s).
 Definition set_closed (s : sys) : sys :=
-  mksys (sy_w s) (sy_dirs s) (sy_flows s) (sy_cur0 s) (sy_cur1 s) (sy_kbi s) (sy_kuni s) (sy_pool s) true.
+  mksys (sy_rot s) (sy_w s) (sy_dirs s) (sy_flows s) (sy_cur0 s) (sy_cur1 s) (sy_kbi s) (sy_kuni s) (sy_pool s) true.
 
 (* a frame of stream j reaches the server: try_accept_sid creates every stream up to it *)
 Definition learn (s : sys) (j : N) : sys :=
@@ -478,8 +479,8 @@ Definition learn (s : sys) (j : N) : sys :=
   | Some d =>
     let i := idx_of (sy_dirs s) j + 1 in
     if d =? 0
-    then mksys (sy_w s) (sy_dirs s) (sy_flows s) (sy_cur0 s) (sy_cur1 s) (N.max (sy_kbi s) i) (sy_kuni s) (sy_pool s) (sy_closed s)
-    else mksys (sy_w s) (sy_dirs s) (sy_flows s) (sy_cur0 s) (sy_cur1 s) (sy_kbi s) (N.max (sy_kuni s) i) (sy_pool s) (sy_closed s)
+    then mksys (sy_rot s) (sy_w s) (sy_dirs s) (sy_flows s) (sy_cur0 s) (sy_cur1 s) (N.max (sy_kbi s) i) (sy_kuni s) (sy_pool s) (sy_closed s)
+    else mksys (sy_rot s) (sy_w s) (sy_dirs s) (sy_flows s) (sy_cur0 s) (sy_cur1 s) (sy_kbi s) (N.max (sy_kuni s) i) (sy_pool s) (sy_closed s)
   | None => s
   end.
 
@@ -503,14 +504,17 @@ Definition outgoing_keys (s : sys) (side : N) : list (N * N) :=
                 then StreamCtl.ainsert acc (sid_of_stream (sy_dirs s) (key_stream k)) k
                 else acc) [] (sy_flows s).
 
-(* visiting order: (sid, tokens) *)
-Definition load_order (cursor : option (N * N)) (keys : list N) : list (N * N) :=
+(* visiting order: (sid, tokens).  As coded, a cursor stream that has used up its tokens is visited FIRST
+   again with fresh tokens (rev([..=sid]) ++ rev([sid+1..]): finding F60, no rotation); with [rot] it goes
+   to the back of the round (rev([..sid]) ++ rev([sid..])), the order of the prepared repair. *)
+Definition load_order (rot : bool) (cursor : option (N * N)) (keys : list N) : list (N * N) :=
   let all := map (fun k => (k, StreamCtl.DEFAULT_TOKENS)) in
   match cursor with
   | None => all (rev keys)
   | Some (c, tok) =>
     if tok =? 0 then
-      all (rev (filter (fun k => k <=? c) keys) ++ rev (filter (fun k => c <? k) keys))
+      if rot then all (rev (filter (fun k => k <? c) keys) ++ rev (filter (fun k => c <=? k) keys))
+      else all (rev (filter (fun k => k <=? c) keys) ++ rev (filter (fun k => c <? k) keys))
     else
       (if existsb (N.eqb c) keys then [(c, tok)] else [])
       ++ all (rev (filter (fun k => k <? c) keys) ++ rev (filter (fun k => c <? k) keys))
@@ -546,7 +550,7 @@ Definition emit (s : sys) (side cap flowlim : N) : sys * option (N * N * pickd) 
   if cap <? StreamCtl.STREAM_FRAME_MAX then (s, None)
   else
     let skeys := outgoing_keys s side in
-    let order := load_order (if side =? 0 then sy_cur0 s else sy_cur1 s) (map fst skeys) in
+    let order := load_order (sy_rot s) (if side =? 0 then sy_cur0 s else sy_cur1 s) (map fst skeys) in
     match try_streams s skeys order cap (N.min flowlim cap) with
     | (s', Some (key, sid, tok, p)) =>
       (set_cursor s' side (Some (sid, tok - (pk_end p - pk_start p))), Some (key, sid, p))
@@ -698,8 +702,12 @@ Fixpoint ops_decode (l : list (N * list Z)) : list op :=
   end.
 
 (* CASE cfg: W k d_0 .. d_{k-1} *)
-Definition run_stream_e2e (cfg : list Z) (l : list (N * list Z)) : list (list Z) :=
+Definition run_stream_e2e_with (rot : bool) (cfg : list Z) (l : list (N * list Z)) : list (list Z) :=
   match cfg with
-  | w :: _ :: dirs => sys_run (sys_init (Z.to_N w) (map Z.to_N dirs)) (ops_decode l)
+  | w :: _ :: dirs => sys_run (sys_init rot (Z.to_N w) (map Z.to_N dirs)) (ops_decode l)
   | _ => []
   end.
+
+(* the code as it stands / with the cursor repair of finding F60; the stream registry selects one *)
+Definition run_stream_e2e : list Z -> list (N * list Z) -> list (list Z) := run_stream_e2e_with false.
+Definition run_stream_e2e_rot : list Z -> list (N * list Z) -> list (list Z) := run_stream_e2e_with true.
